@@ -830,6 +830,23 @@ def str_method(e: Engine, st: State, s, attr: str, args: List[SV], kw, recv: SV)
     if attr == "replace":
         return SV(STR, z3.String(fresh_name("replaced")))
     if attr == "format":
+        # str.format raises (ValueError / IndexError / KeyError) on a malformed or under-supplied template.  A LITERAL template is checked here
+        # against the number of positional arguments; any other receiver (a template assembled at run time may contain user data) may raise
+        tag = getattr(recv, "tag", None) if recv is not None else None
+        safe = False
+        if tag and tag[0] == "lit" and not kw:
+            import string as _string
+            try:
+                fields = [(f, spec, conv) for _, f, spec, conv in _string.Formatter().parse(tag[1]) if f is not None]
+                auto = [f for f, _, _ in fields if f == ""]
+                numbered = [int(f) for f, _, _ in fields if f.isdigit()]
+                safe = (all(f == "" or f.isdigit() for f, _, _ in fields) and not (auto and numbered)
+                        and len(auto) <= len(args) and all(i < len(args) for i in numbered)
+                        and all(not spec and conv is None for _, spec, conv in fields))
+            except ValueError:
+                safe = False
+        if not safe:
+            e.may_raise("ValueError", z3.Bool(fresh_name("format_raises")), "str.format:template-not-constant")
         return SV(STR, z3.String(fresh_name("formatted")))
     if attr == "split":
         return str_split(e, st, s, args)
